@@ -11,7 +11,7 @@ def decode(string):
 
 
 def validate_encoded(string):
-  if not re.match(r"^[!-)+-<>-~][!-~]*$", string):
+  if not re.match(r"^[!-)+-<>-~][!-~]*\Z", string):
     raise gfapy.FormatError(
       "{} is not a valid GFA1 segment name\n".format(repr(string))+
       "(it does not match the regular expression [!-)+-<>-~][!-~]*")
